@@ -1,0 +1,129 @@
+//go:build verif
+
+// Contracts for package fosite, checked by /verif/govc (see /verif/DESIGN.md).
+// Comment-only: this file adds no code to the package.
+package fosite
+
+// ---------------------------------------------------------------- errors
+
+//@ spec func sameclass(e *RFC6749Error, t V) bool = typeis(t, *RFC6749Error) && e.ErrorField == cast(t, *RFC6749Error).ErrorField && e.CodeField == cast(t, *RFC6749Error).CodeField
+
+//@ axiom sentinel-errors ErrInvalidRequest != nil && ErrInvalidRequest.ErrorField == "invalid_request" && ErrInvalidRequest.CodeField == 400 && ErrInvalidGrant != nil && ErrInvalidGrant.ErrorField == "invalid_grant" && ErrInvalidGrant.CodeField == 400 && ErrServerError != nil && ErrServerError.ErrorField == "server_error" && ErrServerError.CodeField == 500 && ErrNotFound != nil && ErrNotFound.ErrorField == "not_found" && ErrNotFound.CodeField == 404 && ErrUnknownRequest != nil && ErrUnknownRequest.ErrorField == "error" && ErrUnknownRequest.CodeField == 400 && ErrInvalidClient != nil && ErrInvalidClient.ErrorField == "invalid_client" && ErrInvalidClient.CodeField == 401 && ErrUnauthorizedClient != nil && ErrUnauthorizedClient.ErrorField == "unauthorized_client" && ErrUnauthorizedClient.CodeField == 400 && ErrInvalidScope != nil && ErrInvalidScope.ErrorField == "invalid_scope" && ErrInvalidScope.CodeField == 400 && ErrInactiveToken != nil && ErrInactiveToken.ErrorField == "token_inactive" && ErrInactiveToken.CodeField == 401 && ErrTokenExpired != nil && ErrTokenExpired.ErrorField == "invalid_token" && ErrSerializationFailure != nil && ErrSerializationFailure.ErrorField == "error" && ErrSerializationFailure.CodeField == 409 && ErrAccessDenied != nil && ErrAccessDenied.ErrorField == "access_denied" && ErrTemporarilyUnavailable != nil && ErrTemporarilyUnavailable.ErrorField == "temporarily_unavailable"
+//@ axiom sentinel-types typeis(ErrInvalidRequest, *RFC6749Error) && typeis(ErrInvalidGrant, *RFC6749Error) && typeis(ErrServerError, *RFC6749Error) && typeis(ErrNotFound, *RFC6749Error) && typeis(ErrUnknownRequest, *RFC6749Error) && typeis(ErrInvalidClient, *RFC6749Error) && typeis(ErrInactiveToken, *RFC6749Error) && typeis(ErrSerializationFailure, *RFC6749Error)
+
+//@ func (RFC6749Error).WithWrap
+//@   trusted
+//@   ensures result != nil && fresh(result) && typeis(result, *RFC6749Error)
+//@   ensures result.ErrorField == e.ErrorField && result.CodeField == e.CodeField && result.DescriptionField == e.DescriptionField && result.HintField == e.HintField && result.DebugField == e.DebugField && result.exposeDebug == e.exposeDebug && result.useLegacyFormat == e.useLegacyFormat
+//@   ensures result.cause == cause
+//@   ensures ehead(result) == result
+//@   ensures forall t V :: eis(result, t) == (sameclass(result, t) || (cause != nil && eis(cause, t)))
+
+//@ func (*RFC6749Error).WithHintf
+//@   trusted
+//@   ensures result != nil && fresh(result) && typeis(result, *RFC6749Error)
+//@   ensures result.ErrorField == e.ErrorField && result.CodeField == e.CodeField && result.DescriptionField == e.DescriptionField && result.DebugField == e.DebugField && result.exposeDebug == e.exposeDebug && result.useLegacyFormat == e.useLegacyFormat && result.cause == e.cause
+//@   ensures ehead(result) == result
+//@   ensures forall t V :: eis(result, t) == (sameclass(result, t) || (e.cause != nil && eis(e.cause, t)))
+
+//@ func (*RFC6749Error).WithHint
+//@   trusted
+//@   ensures result != nil && fresh(result) && typeis(result, *RFC6749Error)
+//@   ensures result.ErrorField == e.ErrorField && result.CodeField == e.CodeField && result.DescriptionField == e.DescriptionField && result.DebugField == e.DebugField && result.exposeDebug == e.exposeDebug && result.useLegacyFormat == e.useLegacyFormat && result.cause == e.cause && result.HintField == hint
+//@   ensures ehead(result) == result
+//@   ensures forall t V :: eis(result, t) == (sameclass(result, t) || (e.cause != nil && eis(e.cause, t)))
+
+//@ func (*RFC6749Error).WithDebug
+//@   trusted
+//@   ensures result != nil && fresh(result) && typeis(result, *RFC6749Error)
+//@   ensures result.ErrorField == e.ErrorField && result.CodeField == e.CodeField && result.DescriptionField == e.DescriptionField && result.HintField == e.HintField && result.DebugField == debug && result.exposeDebug == e.exposeDebug && result.useLegacyFormat == e.useLegacyFormat && result.cause == e.cause
+//@   ensures ehead(result) == result
+//@   ensures forall t V :: eis(result, t) == (sameclass(result, t) || (e.cause != nil && eis(e.cause, t)))
+
+//@ func (*RFC6749Error).WithDebugf
+//@   trusted
+//@   ensures result != nil && fresh(result) && typeis(result, *RFC6749Error)
+//@   ensures result.ErrorField == e.ErrorField && result.CodeField == e.CodeField && result.DescriptionField == e.DescriptionField && result.HintField == e.HintField && result.exposeDebug == e.exposeDebug && result.useLegacyFormat == e.useLegacyFormat && result.cause == e.cause
+//@   ensures ehead(result) == result
+//@   ensures forall t V :: eis(result, t) == (sameclass(result, t) || (e.cause != nil && eis(e.cause, t)))
+
+//@ func (*RFC6749Error).WithDescription
+//@   trusted
+//@   ensures result != nil && fresh(result) && typeis(result, *RFC6749Error)
+//@   ensures result.ErrorField == e.ErrorField && result.CodeField == e.CodeField && result.HintField == e.HintField && result.DebugField == e.DebugField && result.exposeDebug == e.exposeDebug && result.useLegacyFormat == e.useLegacyFormat && result.cause == e.cause
+//@   ensures ehead(result) == result
+//@   ensures forall t V :: eis(result, t) == (sameclass(result, t) || (e.cause != nil && eis(e.cause, t)))
+
+//@ func (*RFC6749Error).WithHintIDOrDefaultf
+//@   trusted
+//@   ensures result != nil && fresh(result) && typeis(result, *RFC6749Error)
+//@   ensures result.ErrorField == e.ErrorField && result.CodeField == e.CodeField && result.DescriptionField == e.DescriptionField && result.DebugField == e.DebugField && result.exposeDebug == e.exposeDebug && result.useLegacyFormat == e.useLegacyFormat && result.cause == e.cause
+//@   ensures ehead(result) == result
+//@   ensures forall t V :: eis(result, t) == (sameclass(result, t) || (e.cause != nil && eis(e.cause, t)))
+
+// ---------------------------------------------------------------- C12: scope strategies
+
+//@ spec func segok(m []string, n []string, k int) bool = (k == len(m) - 1 && len(m) != len(n) ==> m[k] == "*") && ((m[k] == "*" && len(n[k]) > 0) || (m[k] != "*" && m[k] == n[k]))
+//@ spec func wild(m []string, n []string) bool = len(m) <= len(n) && (forall k int :: 0 <= k && k < len(m) ==> segok(m, n, k))
+
+//@ func WildcardScopeStrategy
+//@   ensures [C12.wildcard-equals-spec] result <==> (exists j int :: 0 <= j && j < len(matchers) && wild(strings.Split(matchers[j], "."), strings.Split(needle, ".")))
+//@   invariant loop#1 [C12.wildcard-equals-spec] $i <= len(matchers) && (forall j int :: 0 <= j && j < $i ==> !wild(strings.Split(matchers[j], "."), strings.Split(needle, ".")))
+//@   invariant loop#2 [C12.wildcard-equals-spec] $i#1 < len(matchers) && $i <= len(matcherParts) && len(matcherParts) <= len(needleParts) && matcherParts == strings.Split(matchers[$i#1], ".") && (forall j int :: 0 <= j && j < $i#1 ==> !wild(strings.Split(matchers[j], "."), strings.Split(needle, "."))) && (forall j int :: 0 <= j && j < $i ==> segok(matcherParts, needleParts, j))
+
+// hier: the haystack entry equals the needle, or its dot-separated segments are a proper prefix of the
+// needle's segments.
+//@ spec func hier(h string, n string) bool = h == n || (len(strings.Split(h, ".")) < len(strings.Split(n, ".")) && (forall k int :: 0 <= k && k < len(strings.Split(h, ".")) ==> strings.Split(h, ".")[k] == strings.Split(n, ".")[k]))
+
+//@ func HierarchicScopeStrategy
+//@   ensures [C12.hierarchic-equals-spec] result <==> (exists j int :: 0 <= j && j < len(haystack) && hier(haystack[j], needle))
+//@   invariant loop#1 [C12.hierarchic-equals-spec] $i <= len($p_haystack) && (forall j int :: 0 <= j && j < $i ==> !hier($p_haystack[j], $p_needle))
+//@   invariant loop#2 [C12.hierarchic-equals-spec] $i#1 < len($p_haystack) && this == $p_haystack[$i#1] && this != $p_needle && needles == strings.Split($p_needle, ".") && haystack == strings.Split(this, ".") && haystackLen == len(haystack) - 1 && $i <= len(needles) && $i <= len(haystack) && (forall j int :: 0 <= j && j < $i#1 ==> !hier($p_haystack[j], $p_needle)) && (forall j int :: 0 <= j && j < $i ==> haystack[j] == needles[j])
+
+//@ func ExactScopeStrategy
+//@   ensures [C12.exact-equals-spec] result <==> (exists j int :: 0 <= j && j < len(haystack) && haystack[j] == needle)
+//@   invariant loop#1 [C12.exact-equals-spec] $i <= len(haystack) && (forall j int :: 0 <= j && j < $i ==> haystack[j] != needle)
+
+//@ func StringInSlice
+//@   pure
+//@   ensures [C12.string-in-slice] result <==> (exists j int :: 0 <= j && j < len(haystack) && strings.ToLower(haystack[j]) == strings.ToLower(needle))
+//@   invariant loop#1 [C12.string-in-slice] $i <= len(haystack) && (forall j int :: 0 <= j && j < $i ==> strings.ToLower(haystack[j]) != strings.ToLower(needle))
+
+//@ func (Arguments).Has
+//@   pure
+//@   ensures [C12.arguments-has] result <==> (forall j int :: 0 <= j && j < len(items) ==> StringInSlice(items[j], r))
+//@   invariant loop#1 [C12.arguments-has] $i <= len(items) && (forall j int :: 0 <= j && j < $i ==> StringInSlice(items[j], r))
+
+//@ func (Arguments).HasOneOf
+//@   pure
+//@   ensures [C12.arguments-hasoneof] result <==> (exists j int :: 0 <= j && j < len(items) && StringInSlice(items[j], r))
+//@   invariant loop#1 [C12.arguments-hasoneof] $i <= len(items) && (forall j int :: 0 <= j && j < $i ==> !StringInSlice(items[j], r))
+
+//@ func (Arguments).ExactOne
+//@   pure
+//@   ensures [C12.arguments-exactone] result <==> (len(r) == 1 && r[0] == name)
+
+//@ func (Arguments).MatchesExact
+//@   pure
+//@   ensures [C12.arguments-matchesexact] result <==> (len(r) == len(items) && (forall j int :: 0 <= j && j < len(items) ==> items[j] == r[j]))
+//@   invariant loop#1 [C12.arguments-matchesexact] len(r) == len(items) && $i <= len(items) && (forall j int :: 0 <= j && j < $i ==> items[j] == r[j])
+
+// ---------------------------------------------------------------- C12: audience strategies
+
+//@ func ExactAudienceMatchingStrategy
+//@   ensures [C12.exact-audience-equals-spec] err == nil <==> (forall i int :: 0 <= i && i < len(needle) ==> (exists j int :: 0 <= j && j < len(haystack) && needle[i] == haystack[j]))
+//@   ensures [C12.exact-audience-error-class] err != nil ==> ehead(err).ErrorField == "invalid_request"
+//@   invariant loop#1 [C12.exact-audience-equals-spec] $i <= len(needle) && (forall i int :: 0 <= i && i < $i ==> (exists j int :: 0 <= j && j < len(haystack) && needle[i] == haystack[j]))
+//@   invariant loop#2 [C12.exact-audience-equals-spec] $i#1 < len(needle) && n == needle[$i#1] && $i <= len(haystack) && (found <==> (exists j int :: 0 <= j && j < $i && n == haystack[j])) && (forall i int :: 0 <= i && i < $i#1 ==> (exists j int :: 0 <= j && j < len(haystack) && needle[i] == haystack[j]))
+
+// matchAud: documented meaning of the default audience strategy for one (registered, requested) pair: both
+// parse, scheme and host are equal, and the requested path equals the registered path, or equals it without
+// trailing slashes, or continues it below a "/" segment boundary.
+//@ spec func matchAud(h string, n string) bool = url_ok(h) && url_ok(n) && url_scheme(n) == url_scheme(h) && url_host(n) == url_host(h) && (url_path(n) == url_path(h) || url_path(n) == strings.TrimRight(url_path(h), "/") || strings.HasPrefix(url_path(n), strings.TrimRight(url_path(h), "/") + "/"))
+
+//@ func DefaultAudienceMatchingStrategy
+//@   ensures [C12.default-audience-sound] err == nil ==> (forall i int :: 0 <= i && i < len(needle) ==> (exists j int :: 0 <= j && j < len(haystack) && matchAud(haystack[j], needle[i])))
+//@   ensures [C12.default-audience-complete] (forall i int :: 0 <= i && i < len(needle) ==> url_ok(needle[i])) && (forall j int :: 0 <= j && j < len(haystack) ==> url_ok(haystack[j])) && (forall i int :: 0 <= i && i < len(needle) ==> (exists j int :: 0 <= j && j < len(haystack) && matchAud(haystack[j], needle[i]))) ==> err == nil
+//@   ensures [C12.default-audience-error-class] err != nil ==> ehead(err).ErrorField == "invalid_request"
+//@   invariant loop#1 [C12.default-audience-sound] $i <= len(needle) && (forall i int :: 0 <= i && i < $i ==> url_ok(needle[i]) && (exists j int :: 0 <= j && j < len(haystack) && matchAud(haystack[j], needle[i])))
+//@   invariant loop#2 [C12.default-audience-sound] $i#1 < len(needle) && n == needle[$i#1] && url_ok(n) && nu != nil && nu.Scheme == url_scheme(n) && nu.Host == url_host(n) && nu.Path == url_path(n) && $i <= len(haystack) && (forall j int :: 0 <= j && j < $i ==> url_ok(haystack[j])) && (found <==> (exists j int :: 0 <= j && j < $i && matchAud(haystack[j], n))) && (forall i int :: 0 <= i && i < $i#1 ==> url_ok(needle[i]) && (exists j int :: 0 <= j && j < len(haystack) && matchAud(haystack[j], needle[i])))
